@@ -8,8 +8,8 @@ for line in open(os.path.join(root, "mutants", "MATRIX.quick.txt")):
     m = re.match(r"MUTANT seeded-(\S+) suite=(\S+) caught:\[(.*?)\]", line)
     if m:
         rows[m.group(1)] = m.group(3).split()
-first = {"AB": 26, "CD": 22, "EF": 16, "GH": 29, "IJ": 16, "KL": 21, "MN": 30, "OP": 11, "Q": 6}  # target-check catches when each round came in (session logs)
-names = {"AB": "round 1 (A, B)", "CD": "round 2 (C, D)", "EF": "round 3 (E, F)", "GH": "round 4 (G, H)", "IJ": "round 5 (I, J)", "KL": "round 6 (K, L)", "MN": "round 7 (M, N)", "OP": "round 8 (O, P; 32)", "Q": "round 9 (Q; 6 properties)"}
+first = {"AB": 26, "CD": 22, "EF": 16, "GH": 29, "IJ": 16, "KL": 21, "MN": 30, "OP": 11, "Q": 11}  # target-check catches when each round came in (session logs)
+names = {"AB": "round 1 (A, B)", "CD": "round 2 (C, D)", "EF": "round 3 (E, F)", "GH": "round 4 (G, H)", "IJ": "round 5 (I, J)", "KL": "round 6 (K, L)", "MN": "round 7 (M, N)", "OP": "round 8 (O, P; 32)", "Q": "round 9 (Q; 12 properties, one change each)"}
 out = ["| | changes | caught by the target property's check: first run | final | caught by ≥ 1 check (final) | caught by none |", "|---|---|---|---|---|---|"]
 tot = [0, 0, 0, 0, 0]
 none = []
